@@ -4,7 +4,7 @@ import math
 
 from ..core import Acc, Viol, jhash
 from .. import pk, gen, corpus
-from . import c04
+from . import c04, c07
 import propka.protonate
 import propka.vector_algebra
 
@@ -13,8 +13,9 @@ HORIZON_S = 1800   # one case = one input under all its transformations
 LEVEL = 'exploration'
 LEVEL_TEXT = ('Every residue of the reference proteins in chain context (7-residue windows with stride 5; thorough: stride 1 and whole '
               'chains), every ligand template and the fragments flattened into a coordinate plane are run through the real program in '
-              'default mode and with --protonate-all, in all 24 grid rotations x 2 translations; every hydrogen the program created is '
-              'checked for exactly one bonded heavy atom, the tabulated X-H length (+-0.002 A), >= 0.5 A separation from its siblings, '
+              'default mode and with --protonate-all, in all 24 grid rotations x 2 translations, and (amino-acid inputs) with --keep-protons on '
+              'the program\'s own hydrogens with each single one of them removed; every hydrogen the program created is '
+              'checked for exactly one bonded heavy atom (and no second heavy atom within 0.9 A), the tabulated X-H length (+-0.002 A), >= 0.5 A separation from its siblings, '
               'the complement of complete residues (His 2, Arg 5, Asn/Gln 2, Trp 1, amide 1 except Pro and N-terminus) together with '
               'the absence of the "missing atoms or failed protonation" warning, and equivariance of the hydrogen positions under the '
               'motion (+-0.002 A rounded, 1e-9 with the un-rounded seam).')
@@ -23,7 +24,7 @@ LEVEL_NOTE = ('Bond-length table typed in from the statement\'s source (C 1.09, 
               'counted as irregular and excluded from the complement claim; hydrogens built through Vector.orthogonal() are excluded '
               'from the equivariance claim (frame-dependent rotamer by design).')
 TECHNIQUE = 'exhaustive enumeration of residue environments x grid motions; geometric invariants on every created hydrogen and differential equivariance check'
-ASSUMPTIONS = ['hydrogens created by the program are the atoms of element H in ConformationContainer.atoms (inputs contain none)']
+ASSUMPTIONS = ['hydrogens are the atoms of element H in ConformationContainer.atoms; inputs contain none except in the keep-protons mode, where they are the program\'s own']
 
 XH = {'C': 1.09, 'N': 1.01, 'O': 0.96, 'F': 0.92, 'Cl': 1.27, 'Br': 1.41, 'I': 1.61, 'S': 1.35}
 # nitrogen atoms that must carry hydrogens in a complete residue: name -> (regular heavy-atom bonds, hydrogens)
@@ -94,7 +95,19 @@ def hydrogens(mol, seam):
                 d = math.sqrt(sum((hs[i][k] - hs[j][k]) ** 2 for k in range(3)))
                 if d < 0.5:
                     v.append(('hydrogens-coincide', 'two H on %s are %.3f A apart' % (pkey, d)))
-    # a hydrogen must not sit within bonding distance of a second heavy atom's bond list (exactly one bonded heavy atom)
+    # exactly one heavy atom: a created hydrogen closer than 0.9 A (less than any X-H bond length) to a heavy atom other than its
+    # parent sits on a second heavy atom, whatever the bond lists say
+    heavy_all = [b for b in conf.atoms if b.element != 'H']
+    for a in conf.atoms:
+        if a.element != 'H' or not a.bonded_atoms:
+            continue
+        for b in heavy_all:
+            if b is a.bonded_atoms[0]:
+                continue
+            if abs(a.x - b.x) < 0.9 and abs(a.y - b.y) < 0.9 and abs(a.z - b.z) < 0.9:
+                d = math.sqrt((a.x - b.x) ** 2 + (a.y - b.y) ** 2 + (a.z - b.z) ** 2)
+                if d < 0.9:
+                    v.append(('hydrogen-on-second-heavy-atom/%s' % b.element, 'H %s is %.3f A from %s' % (akey(a), d, akey(b))))
     return by_parent, rot, v
 
 
@@ -247,6 +260,25 @@ def run_case(case, ctx, acc):
                     if ck not in done:
                         done.add(ck)
                         acc.viols.append(Viol(sub, 'hydrogens', ck, what, inputs=dict(pdb=text0, opts=list(opts))))
+                # the program's own hydrogens written back with one of them missing, --keep-protons: the builder completes the set
+                if mode == 'default' and not unrounded and c07.amino_only(s) and case['src'] in ('corpus', 'flat'):
+                    fed = c07.hydrogens_fed_back(s, m0)
+                    hidx = [] if fed is None else [i for i, it in enumerate(fed) if not isinstance(it, str) and it.element == 'H']
+                    for drop in ([None] + hidx if hidx else []):
+                        items = [it for i, it in enumerate(fed) if i != drop]
+                        mark = pk.warn_mark()
+                        seam.rotamer_parents.clear()
+                        mk = pk.run(gen.to_text(items), ('--keep-protons',))
+                        hk, rotk, vk = hydrogens(mk, seam)
+                        cvk, _ = complement(mk, s, pk.warnings_since(mark))
+                        subk = dict(case, mode='keep-protons', dropped=None if drop is None else fed[drop].name + '@%d' % fed[drop].resnum)
+                        acc.case(nontrivial_key=jhash(subk), outcome='keep-protons/%s' % ('all' if drop is None else 'one-missing'))
+                        donek = set()
+                        for ck, what in vk + cvk:
+                            ck = ck + '/keep-protons' + ('' if drop is None else '-one-missing')
+                            if ck not in donek:
+                                donek.add(ck)
+                                acc.viols.append(Viol(subk, 'hydrogens', ck, what, inputs=dict(pdb=gen.to_text(items), opts=['--keep-protons'])))
                 # equivariance
                 small = case['src'] != 'corpus'
                 rots = range(24) if (small or ctx.tier == 'thorough') else (0, 3, 7, 13, 18, 22)
